@@ -170,6 +170,7 @@ type ctlConductor struct {
 	s        *gocql.Session
 	closeRet chan struct{}
 	hbOwned  bool // the heartbeat goroutine is inside the reconnect attempt being conducted
+	otherOwned bool // the control connection's reader goroutine is
 	k        int  // round trips of that attempt seen so far
 	stall    string
 }
@@ -304,6 +305,50 @@ func (c *ctlConductor) act(a string) bool {
 			c.k++
 		}
 		return true
+	case strings.HasPrefix(a, "dropo"):
+		// the server resets the control connection while dials are held: the connection's reader goroutine runs
+		// controlConn.HandleError -> reconnect() and owns the attempt, held at its dial
+		if c.closeRet != nil || c.hbOwned || c.otherOwned {
+			return false
+		}
+		c.p.setMode(2)
+		if !c.cp.DropControl() {
+			return false
+		}
+		c.waitFor("dropo: the reader's reconnect attempt is held at its dial", func() bool {
+			n, _, _ := c.p.counts()
+			return n == 1 && labelledIn(c.label, reconnFrame) > 0
+		})
+		c.otherOwned = true
+		c.k = 1
+		return true
+	case a == "relo":
+		if !c.otherOwned {
+			return false
+		}
+		_, t0, _ := c.p.counts()
+		if !c.p.release(true) {
+			return false
+		}
+		over := false
+		c.waitFor("relo: the next round trip is held or the reconnect is over", func() bool {
+			n, t, _ := c.p.counts()
+			if n == 1 && t == t0+1 {
+				return true
+			}
+			if n == 0 && c.reconnectOver() {
+				over = true
+				return true
+			}
+			return false
+		})
+		if over {
+			c.otherOwned = false
+			c.p.setMode(0)
+		} else {
+			c.k++
+		}
+		return true
 	case a == "close":
 		if c.closeRet != nil {
 			return false
@@ -311,6 +356,14 @@ func (c *ctlConductor) act(a string) bool {
 		c.closeRet = make(chan struct{})
 		go func() { c.s.Close(); close(c.closeRet) }()
 		c.waitFor("close: Session.Close returned or is parked in controlConn.close", c.closeSettled)
+		if c.otherOwned {
+			// Session.Close went through: its cancel() ends the reader's reconnect attempt (the connection being set up
+			// lives on the session context); what the peer still holds of it is stale
+			c.waitFor("close: the reader's reconnect attempt is over", c.reconnectOver)
+			c.otherOwned = false
+			c.p.setMode(0)
+			c.p.releaseAll()
+		}
 		return true
 	}
 	return false
@@ -356,6 +409,14 @@ func genCtlActs(r *vh.Rng) []string {
 		return []string{"close"}
 	case 1:
 		return []string{"drop", "close"}
+	}
+	if r.Intn(3) == 0 {
+		// a reconnect owned by the connection's reader goroutine, Session.Close after 0..7 of its round trips (8: after it)
+		acts := []string{"dropo"}
+		for i, n := 0, r.Intn(9); i < n; i++ {
+			acts = append(acts, "relo")
+		}
+		return append(acts, "close")
 	}
 	acts := []string{"drop", "hbfail"}
 	at := r.Intn(9) // rels before Close (more than the attempt has: Close after the reconnect)
@@ -466,6 +527,9 @@ func runCtlLabelled(label string, fixed []string, r *vh.Rng) (string, string, st
 				k = 0
 			}
 			done[i] = fmt.Sprintf("hbfail%d", k)
+		}
+		if strings.HasPrefix(a, "dropo") {
+			done[i] = "dropo7" // dial, OPTIONS, STARTUP, system.local, REGISTER, the ring refresh's system.local and system.peers
 		}
 	}
 	sched := strings.Join(done, ",")
